@@ -74,6 +74,9 @@ class Prop(PropBase):
             if rng.random() < 0.12:
                 cases.append(gen_rf_case(rng))
                 continue
+            if rng.random() < 0.05:
+                cases.append(gen_walrus_case(rng))
+                continue
             pairs, cmap = G.gen_context(rng)
             avail = [k for k, _ in pairs]
             r = rng.random()
@@ -292,6 +295,14 @@ def ref_format(v, cmap, rec, depth):
     if isinstance(v, dict):
         if 'sic' in v:
             return v['sic']         # !sic: the literal text, whatever it is (also the empty string)
+        if 'py' in v:
+            # !py: what plain Python gives for the expression, names resolved in the context; names the
+            # expression binds itself (:=) live for this one evaluation only
+            try:
+                scope = {k: pv.to_py(x) for k, x in cmap.items() if isinstance(k, str)}
+                return pv.Canon()(eval(pv.render_expr(v['py']), {}, scope))
+            except Exception:
+                raise RefUnsupported()
         if 'l' in v:
             return {'l': [ref_format(x, cmap, rec, depth + 1) for x in v['l']]}
         if 't' in v:
@@ -302,6 +313,28 @@ def ref_format(v, cmap, rec, depth):
                 raise RefUnsupported()
             return {'d': [[k, ref_format(x, cmap, rec, depth + 1)] for k, (_, x) in zip(ks, v['d'])]}
     raise RefUnsupported()
+
+
+def gen_walrus_case(rng):
+    """several !py strings formatted in ONE call on one context: a name bound with := in one of them must
+    not be visible to the next, which reads the context key of that name."""
+    k = rng.choice(['n', 'k', 'flag'])
+    ctxv = {'n': 3, 'k': 'x', 'flag': True}[k]
+    bound = {'n': ['int', 5], 'k': ['str', 'bound'], 'flag': ['bool', False]}[k]
+    w = rng.choice(['walrus', 'walrus_ns'])
+    binder = {'py': rng.choice([[w, k, bound], ['tuple', [[w, k, bound], ['name', k]]],
+                                ['cmp', 'eq', [w, k, bound], bound]])}
+    reader = {'py': rng.choice([['name', k], ['tuple', [['name', k], ['int', 1]]], ['list', [['name', k]]]])}
+    shape = rng.choice(['l', 'd', 'nested', 't'])
+    if shape == 'l':
+        val = {'l': [binder, reader, 'txt {' + k + '}']}
+    elif shape == 't':
+        val = {'t': [binder, reader]}
+    elif shape == 'd':
+        val = {'d': [['a', binder], ['b', reader], ['c', '{' + k + '}']]}
+    else:
+        val = {'l': [{'d': [['x', binder]]}, {'l': [reader, reader]}]}
+    return {'ctx': [['n', 3], ['k', 'x'], ['flag', True], ['other', 1]], 'val': val}
 
 
 def gen_rf_case(rng):
